@@ -59,6 +59,12 @@ INTERPLAY = [
     "def inner(w):\n    return w.iw\ninner(x.arg)", "t = lambda w: w.lw\nt(x.arg)",
     "if x:\n    t = 1\nt.maybe", "try:\n    t = x.a\nexcept KeyError:\n    t = None\nt.b",
     "x.m(y.a).n(z.b)\nx.m(y.c).n(z.d)", "p[i.j].k = q[i.j].k", "p.a, p.b = q.b, q.a",
+    # constructor calls nested in the arguments of a returned / assigned / discarded constructor call
+    "return Cls(Cls(x.n1), y.n2)", "return Cls(k=Cls(x.n3))", "return [Cls(Cls(x.n4)), y]", "return Cls(x.n5), Cls(Cls(y.n6))",
+    "t = Cls(Cls(x.n7), y)", "Cls(Cls(x.n8))", "return helper(Cls(x.n9))", "return Cls(helper(x.n10), Cls(y.n11, z))",
+    # with items without `as`, several items, async
+    "with x.lock:\n    pass", "with p.cm(x.arg):\n    pass", "with open(x.fn) as fh, y.guard:\n    fh.read()",
+    "with x.a, y.b as t:\n    t.c",
 ]
 
 # a second module environment: local callables that reuse the names of plugin-analysed builtins
